@@ -33,6 +33,16 @@ class ExpQMap:
         self.remove([qubit])
         self.exp_map[exp] = qubit
 
+    def remove_referencing(self, sym):
+        """Remove the expressions referencing the symbol sym from the mapping"""
+        todel = []
+        for exp in self.exp_map.keys():
+            if exp != sym and sym in exp.free_symbols:
+                todel.append(exp)
+
+        for exp in todel:
+            del self.exp_map[exp]
+
     def remove(self, qubits: List[int]):
         """Remove qubits from the mapping"""
         todel = []
